@@ -155,6 +155,75 @@ def generate(tier, seed, ctx):
     for dim in (-1, 0, 1, 2, 3, 4, IMAX, -IMAX - 1):
         for n in (0, 1, 2, 3, 4):
             add("c10.rot %d %d" % (dim, n))
+    # ---- 2b. objects with state: mutators, then guarded requests on both sides of the NEW bounds, in one process -------
+    def mshape(sh, m):
+        nm, *n = m.split(":")
+        n = [int(x) for x in n]
+        if nm in ("resize", "assign", "set"):
+            return (n[0], n[1])
+        if nm == "delrow":
+            return (sh[0] - 1, sh[1])
+        if nm == "delcol":
+            return (sh[0], sh[1] - 1)
+        return sh
+    def mat_hist(sh0, muts, variants=None):
+        sh = sh0
+        for m in muts:
+            sh = mshape(sh, m)
+        r, c = sh
+        ok = []
+        if r > 0 and c > 0:
+            ok += ["at:%d:%d" % (r - 1, c - 1), "at:0:0", "row:%d" % (r - 1), "col:%d" % (c - 1)]
+        ok += ["plus:%d:%d" % sh, "minus:%d:%d" % sh, "addeq:%d:%d" % sh, "subeq:%d:%d" % sh, "transpose", "prodv:%d" % c, "prod:%d:2" % c]
+        if r == c:
+            ok.append("trace")
+        H = lambda steps: add("c10.mat.hist %d %d %d %s" % (sh0[0], sh0[1], len(steps), " ".join(steps)))
+        H(muts + ok)
+        H(muts + ["transpose"])
+        bad = ["at:%d:0" % r, "row:%d" % r, "col:%d" % c, "delrow:%d" % r, "delcol:%d" % c, "prodv:%d" % (c + 1), "prod:%d:2" % (c + 1),
+               "plus:%d:%d" % (r + 1, c), "addeq:%d:%d" % (r, c + 1)]
+        if sh0 != sh:
+            bad += ["plus:%d:%d" % sh0, "minus:%d:%d" % sh0, "addeq:%d:%d" % sh0, "subeq:%d:%d" % sh0]   # an operand of the OLD shape
+        if r != c:
+            bad.append("trace")
+        for b in (bad if (thorough or variants is None) else rng.sample(bad, variants)):
+            H(muts + ok[:2] + [b])
+    for sh0 in ((2, 3), (3, 3)):
+        for dr in (-1, 0, 1):
+            for dc in (-1, 0, 1):
+                mat_hist(sh0, ["resize:%d:%d" % (sh0[0] + dr, sh0[1] + dc)], 6 if dc == 0 else 3)
+                mat_hist(sh0, ["assign:%d:%d" % (sh0[0] + dr, sh0[1] + dc)], 2)
+    for muts in (["resize:1:3", "resize:3:3"], ["resize:0:3", "resize:2:3"], ["resize:2:0", "resize:2:3"], ["delrow:0", "resize:3:3"], ["delrow:1", "resize:4:3"],
+                 ["delcol:0", "resize:3:2"], ["delcol:1", "resize:3:3"], ["set:1:3", "resize:4:3"], ["set:4:4", "resize:2:4"], ["assign:1:3", "resize:2:3"],
+                 ["resize:5:3", "delrow:4", "resize:6:3"], ["resize:3:4", "set:3:3"], ["addeq:3:3", "resize:5:3"]):
+        mat_hist((3, 3), muts, 4)
+    for _ in range(30 if thorough else 6):
+        sh0 = (rng.randint(0, 4), rng.randint(0, 4))
+        sh, muts = sh0, []
+        for _k in range(rng.randint(2, 4)):
+            kind = rng.choice(["resize", "resize", "assign", "set", "delrow", "delcol"])
+            if kind == "delrow" and sh[0] > 0:
+                m = "delrow:%d" % rng.randrange(sh[0])
+            elif kind == "delcol" and sh[1] > 0:
+                m = "delcol:%d" % rng.randrange(sh[1])
+            else:
+                kind = kind if kind in ("resize", "assign", "set") else "resize"
+                m = "%s:%d:%d" % (kind, max(0, sh[0] + rng.choice([-1, 0, 0, 1, 2])), max(0, sh[1] + rng.choice([-1, 0, 0, 1])))
+            muts.append(m); sh = mshape(sh, m)
+        mat_hist(sh0, muts, 3)
+    def vec_hist(d0, muts, d):
+        ok = (["at:%d" % (d - 1), "at:0"] if d > 0 else []) + ["dot:%d" % d, "add:%d" % d, "sub:%d" % d, "addeq:%d" % d, "subeq:%d" % d] + (["cross:3"] if d == 3 else [])
+        add("c10.vec.hist %d %d %s" % (d0, len(muts + ok), " ".join(muts + ok)))
+        bad = ["at:%d" % d, "at:%d" % UMAX, "dot:%d" % (d + 1), "addeq:%d" % (d + 1), "cross:%d" % d if d != 3 else "cross:4"] + (["add:%d" % d0, "subeq:%d" % d0] if d0 != d else [])
+        for b in (bad if thorough else bad[:1] + rng.sample(bad[1:], 2)):
+            add("c10.vec.hist %d %d %s" % (d0, len(muts) + 1, " ".join(muts + [b])))
+    for d0 in (0, 3, 5):
+        for d in sorted({0, max(d0 - 1, 0), d0, d0 + 1, 3}):
+            for mi, mk in enumerate(("resize", "assign", "set")):
+                if thorough or mk == "resize" or (mi + d + d0 + seed) % 2:
+                    vec_hist(d0, ["%s:%d" % (mk, d)], d)
+        vec_hist(d0, ["resize:0", "resize:%d" % (d0 + 2)], d0 + 2)
+        vec_hist(d0, ["assign:7", "resize:2", "set:3"], 3)
     # ---- 3. Interpolation ---------------------------------------------------------------------------
     def inc(n, uniform=False):
         x = float(rng.randint(-8, 8))
